@@ -999,3 +999,40 @@ Theorem ticks_once_thm :
   (forall tr s s', lrun tr s = Some s' ->
      nticks s' + tickcap (pc s') + iters s <= nticks s + tickcap (pc s) + iters s').
 Proof. split; [exact iteration_ticks_once|exact ticks_le_iters]. Qed.
+
+(* ------------------------------------------------------------ the stop protocol in the generated table *)
+From Coq Require Import String.
+Local Open Scope nat_scope.
+(** what the ticker automaton (model/Locks.v part 3) takes for granted about the code, checked on
+    the generated footprints: Ticker::stop sets the flag under the Stop mutex and then notifies;
+    the ticker's wait is the last thing of its loop body and holds the Stop mutex only; every
+    finish*/abandon* method, after releasing the bar state, stops the ticker under the slot lock *)
+Definition caction_eqb (x y : caction) : bool :=
+  match x, y with
+  | CAcq a, CAcq b | CRel a, CRel b | CWaitRel a, CWaitRel b => cres_eqb a b
+  | CSetStop, CSetStop | CNotify, CNotify | CSpawn, CSpawn | CJoin, CJoin | CCallback, CCallback
+  | CTick, CTick | CUpgrade, CUpgrade | CDropArc, CDropArc => true
+  | _, _ => false
+  end.
+Definition ends_with (suffix p : list caction) : bool :=
+  list_eqb caction_eqb (skipn (List.length p - List.length suffix) p) suffix && (List.length suffix <=? List.length p).
+Definition stop_fp : list caction := [CAcq CStop; CSetStop; CRel CStop; CNotify].
+Definition wait_fp : list caction := [CAcq CStop; CWaitRel CStop; CAcq CStop; CRel CStop].
+Definition wake_fp : list caction := CRel CBar :: CAcq CSlot :: stop_fp ++ [CRel CSlot].
+Definition finish_names : list String.string :=
+  ["ProgressBar::finish"; "ProgressBar::finish_with_message"; "ProgressBar::finish_and_clear";
+   "ProgressBar::abandon"; "ProgressBar::abandon_with_message"; "ProgressBar::finish_using_style"]%string.
+Definition stop_protocol_ok (tbl : list (String.string * list caction)) (body : list caction) : bool :=
+  match fp_lookup "Ticker::stop"%string tbl with
+  | Some p => list_eqb caction_eqb p stop_fp
+  | None => false
+  end &&
+  match fp_lookup "Ticker::drop:drop"%string tbl with
+  | Some p => list_eqb caction_eqb p (stop_fp ++ [CJoin])
+  | None => false
+  end &&
+  ends_with wait_fp body &&
+  forallb (fun n => match fp_lookup n tbl with Some p => ends_with wake_fp p | None => false end) finish_names.
+
+Theorem generated_stop_protocol : stop_protocol_ok all_footprints ticker_body = true.
+Proof. vm_compute. reflexivity. Qed.
